@@ -612,7 +612,7 @@ func c02WithTimeout(d time.Duration, f func() error) (err error, hung bool) {
 	}
 }
 
-const c02HangWait = 10 * time.Second
+const c02HangWait = 6 * time.Second
 
 func c02RunBackend(co *caseOut, in c02BackendIn) error {
 	viol := func(class, note string) {
